@@ -30,6 +30,8 @@ def check(sc, rep):
 def run(ctx):
     quick = ctx.quick
     rng = ctx.rng.fork("C08")
+    wit = asmlib.run_witnesses(ctx, ['normal', 'F3', 'F2'])
+    ctx.coverage["coq_witness_histories_on_impl"] = wit
     scs = (txscen.single_transmissions(rng, 300 if quick else 4000) + txscen.many_repeats(rng, 30 if quick else 200)
            + txscen.follow_on(rng, 60 if quick else 600))
     mism, fam, nontriv, samples = base.run_family(ctx, "C08", check, scs, rng)
